@@ -413,7 +413,7 @@ func mutateText(t *rapid.T, s string) (string, string) {
 // ---------------------------------------------------------------------------------------------
 // byte-level edits
 
-var hostileBytes = []string{"\x00", "\xff", "\xc3", "\xc3\x28", "\xed\xa0\x80", "\xf4\x90\x80\x80", "\xef\xbb\xbf", "\xe2\x80\xa8", "\xc0\x80", "\x80", "\xfe", "\\", "\"", "\\u{110000}", "\\u{D800}", "\\x80",
+var hostileBytes = []string{"/*", "/**", "/* *", "*/", "//", "/*/", "\x00", "\xff", "\xc3", "\xc3\x28", "\xed\xa0\x80", "\xf4\x90\x80\x80", "\xef\xbb\xbf", "\xe2\x80\xa8", "\xc0\x80", "\x80", "\xfe", "\\", "\"", "\\u{110000}", "\\u{D800}", "\\x80",
 	"\\u{", "\\u", "\\x", "/*", "//", "*/", "\n", "\r", "\x1b", "\x7f", "\\ud800", "\\u0000", "\\", "'"}
 
 var byteMutKinds = []string{"truncate", "insert-hostile", "delete-range", "duplicate-range", "overwrite-byte", "prefix", "suffix"}
